@@ -876,6 +876,19 @@ def mk_okval(x):
     return ('okval', x)
 
 
+def mk_errval(x):
+    """the error carried by a Result value: of a re-raised failure it is the original failure's error"""
+    if x[0] == 'phi':
+        alts = [a for a in x[1] if not _def_ok(a[1])]
+        if len(alts) == 1:
+            return mk_errval(alts[0][1])
+    if x[0] == 'from_residual' and x[1][0] == 'residual':
+        return mk_errval(x[1][1])
+    if x[0] == 'agg' and x[2] == 'core::result::Result::Err' and len(x[3]) == 1:
+        return x[3][0]
+    return ('errval', x)
+
+
 def mk_residual(x):
     """the failure carried out by `?`: a value that is itself the re-raised failure of an inner `?` (a helper that was
     inlined) is that inner failure — `?` converts with the identity From<E> for E"""
@@ -934,7 +947,7 @@ def project1(v, e):
         if v[0] == 'variant' and name == '0' and v[1] == 'Ok':
             return mk_okval(v[2])
         if v[0] == 'variant' and name == '0' and v[1] == 'Err':
-            return ('errval', v[2])
+            return mk_errval(v[2])
         if v[0] == 'load':
             return ('load', v[1], v[2] + (e,))
         return ('field', name, v)
